@@ -598,13 +598,17 @@ impl Binding {
             Binding::Data { ranges, rebase } => {
                 let mut v: Vec<(u64, u64)> = ranges.clone();
                 if let Some(fam) = rebase {
+                    // update manifests: the declared exclusion that starts exactly where the manifest container starts is
+                    // re-based onto the (grown) container. If the container found in `d` starts anywhere else, nothing is
+                    // re-based: the declared ranges apply literally (bytes put in front of the container are NOT excluded).
                     let (cs, ce) = c2pa_container(fam, d)?;
-                    let pos = v.iter().position(|(s, _)| *s as usize == cs)?;
-                    let delta = (ce - cs) as u64 - v[pos].1.min((ce - cs) as u64);
-                    v[pos] = (cs as u64, (ce - cs) as u64);
-                    for (i, x) in v.iter_mut().enumerate() {
-                        if i != pos && x.0 > cs as u64 {
-                            x.0 += delta;
+                    if let Some(pos) = v.iter().position(|(s, _)| *s as usize == cs) {
+                        let delta = (ce - cs) as u64 - v[pos].1.min((ce - cs) as u64);
+                        v[pos] = (cs as u64, (ce - cs) as u64);
+                        for (i, x) in v.iter_mut().enumerate() {
+                            if i != pos && x.0 > cs as u64 {
+                                x.0 += delta;
+                            }
                         }
                     }
                 }
@@ -669,6 +673,11 @@ pub fn confined(b: &Binding, f: &[u8], f_excl: &[(usize, usize)], f_prot: &[u8],
     for (s, t) in f_excl {
         let tail = f.len() - t;
         if m.len() >= s + tail && m[..*s] == f[..*s] && m[m.len() - tail..] == f[*t..] {
+            // a length-changing edit AT a boundary of the range (bytes put directly in front of or behind it) is not
+            // inside it: when bytes were added, the first and last excluded byte must have stayed in place
+            if m.len() > f.len() && t - s >= 2 && (m.get(*s) != f.get(*s) || m[m.len() - tail - 1] != f[*t - 1]) {
+                continue;
+            }
             return true;
         }
     }
